@@ -76,6 +76,17 @@ def mul_oracle(ctx, args, kwargs, result, exc, pre):
             <= TOL * max(1.0, abs(complex(result.data.ravel()[0])))
         ctx.check(ok, 'mul=canvas', 'mul|scalar*scalar', 'product of two constants is not their product', wit)
         return
+    if not (sa or sb) and max(a.data.size, b.data.size) > 1500:
+        # large operands (realistic workloads): same canvas arithmetic on dense arrays
+        items = [(a.data.shape, a.offset), (b.data.shape, b.offset)]
+        if result.data.size:
+            items.append((result.data.shape, result.offset))
+        bb = rm.bbox_of(items)
+        ref = rm.dense([(a.data, a.offset)], bb) * rm.dense([(b.data, b.offset)], bb)
+        got = rm.dense([(result.data, result.offset)], bb) if result.data.size else np.zeros_like(ref)
+        ctx.close('mul=canvas', got, ref, TOL, 'mul|value', 'Field product differs from the pointwise product of the embeddings',
+                  wit, scale=max(float(np.max(np.abs(ref))), 1e-300))
+        return
     if sa or sb:
         arr, const = (b, a) if sa else (a, b)
         ref = _canvas_of(type(arr)(data=arr.data * complex(const.data.ravel()[0]), offset=list(arr.offset)))
@@ -147,7 +158,7 @@ def _merge_check(ctx, fields, result, exc, key):
     if any(f.data.ndim != 2 or f.data.size == 0 for f in fields):
         ctx.skip('merge: constant (0-d) operand has no finite embedding')
         return
-    if set().union(*[rm.coordset(f.data.shape, f.offset) for f in fields]) == {(0, 0)}:
+    if rm.bbox_of([(f.data.shape, f.offset) for f in fields]) == (0, 0, 0, 0):
         ctx.skip('merge: collection is the single origin sample (lentil reserves that extent for constants)')
         return
     wit = {'fields': [_desc(f) for f in fields]}
@@ -155,21 +166,25 @@ def _merge_check(ctx, fields, result, exc, key):
         ctx.check(False, 'merge=canvas', f'{key}|raises={type(exc).__name__}',
                   f'merge raised {type(exc).__name__}: {exc}', wit)
         return
-    ref = rm.Canvas()
-    for f in fields:
-        ref.add(f.data, f.offset)
-    got = _canvas_of(result)
-    keys = ref.support() | got.support()
-    scale = max([abs(v) for v in ref.d.values()] + [1e-300])
-    worst = max([abs(ref.d.get(k, 0) - got.d.get(k, 0)) for k in keys] + [0.0])
+    if sum(f.data.size for f in fields) > 3000:
+        bb = rm.bbox_of([(f.data.shape, f.offset) for f in fields] + [(result.data.shape, result.offset)])
+        refd = rm.dense([(f.data, f.offset) for f in fields], bb)
+        gotd = rm.dense([(result.data, result.offset)], bb)
+        scale = max(float(np.max(np.abs(refd))), 1e-300)
+        worst = float(np.max(np.abs(refd - gotd)))
+    else:
+        ref = rm.Canvas()
+        for f in fields:
+            ref.add(f.data, f.offset)
+        got = _canvas_of(result)
+        keys = ref.support() | got.support()
+        scale = max([abs(v) for v in ref.d.values()] + [1e-300])
+        worst = max([abs(ref.d.get(k, 0) - got.d.get(k, 0)) for k in keys] + [0.0])
     wit['result'] = _desc(result)
     ctx.check(worst <= TOL * scale, 'merge=canvas', f'{key}|value',
               'merge is not the sum of the embeddings', wit)
     # the merged array is exactly the bounding box of the union
-    cs = set().union(*[rm.coordset(f.data.shape, f.offset) for f in fields])
-    rs = [k[0] for k in cs]
-    cc = [k[1] for k in cs]
-    bbox = (min(rs), max(rs), min(cc), max(cc))
+    bbox = rm.bbox_of([(f.data.shape, f.offset) for f in fields])
     ctx.check(tuple(int(x) for x in result.extent) == bbox, 'merge=canvas', f'{key}|extent',
               'merged field does not cover the bounding box of its operands', dict(wit, bbox=bbox))
 
@@ -185,28 +200,25 @@ def reduce_oracle(ctx, args, kwargs, result, exc, pre):
     if any(f.data.ndim != 2 or f.data.size == 0 for f in fields):
         ctx.skip('reduce: constant (0-d) operand has no finite embedding')
         return
-    if set().union(*[rm.coordset(f.data.shape, f.offset) for f in fields]) == {(0, 0)}:
+    if rm.bbox_of([(f.data.shape, f.offset) for f in fields]) == (0, 0, 0, 0):
         ctx.skip('reduce: collection is the single origin sample')
         return
-    wit = {'fields': [_desc(f) for f in fields]}
+    wit = {'fields': [_desc(f) for f in fields][:12]}
     if exc is not None:
         ctx.check(False, 'reduce=canvas', f'reduce|raises={type(exc).__name__}',
                   f'reduce raised {type(exc).__name__}: {exc}', wit)
         return
-    ref = rm.Canvas()
-    for f in fields:
-        ref.add(f.data, f.offset)
-    got = rm.Canvas()
-    for f in result:
-        got.add(f.data, f.offset)
-    keys = ref.support() | got.support()
-    scale = max([abs(v) for v in ref.d.values()] + [1e-300])
-    worst = max([abs(ref.d.get(k, 0) - got.d.get(k, 0)) for k in keys] + [0.0])
-    wit['result'] = [_desc(f) for f in result]
+    bb = rm.bbox_of([(f.data.shape, f.offset) for f in fields] + [(f.data.shape, f.offset) for f in result])
+    refd = rm.dense([(f.data, f.offset) for f in fields], bb)
+    gotd = rm.dense([(f.data, f.offset) for f in result], bb)
+    scale = max(float(np.max(np.abs(refd))), 1e-300)
+    worst = float(np.max(np.abs(refd - gotd)))
+    wit['result'] = [_desc(f) for f in result][:12]
     ctx.check(worst <= TOL * scale, 'reduce=canvas', 'reduce|total',
               'reduce changed the total of the collection', wit)
-    sets = [rm.coordset(f.data.shape, f.offset) for f in result]
-    disjoint = all(not (sets[i] & sets[j]) for i, j in itertools.combinations(range(len(sets)), 2))
+    # pairwise disjoint: no plane sample is covered by two of the returned arrays
+    cover = rm.dense([(np.ones(f.data.shape), f.offset) for f in result], bb).real
+    disjoint = bool(cover.max() <= 1) if cover.size else True
     ctx.check(disjoint, 'reduce=canvas', 'reduce|overlap', 'reduce returned overlapping fields', wit)
 
 
@@ -218,8 +230,7 @@ def boundary_oracle(ctx, args, kwargs, result, exc, pre):
     if exc is not None:
         ctx.check(False, 'boundary=bbox', f'boundary|raises={type(exc).__name__}', str(exc), wit)
         return
-    cs = set().union(*[rm.coordset(f.data.shape, f.offset) for f in fields])
-    bbox = (min(k[0] for k in cs), max(k[0] for k in cs), min(k[1] for k in cs), max(k[1] for k in cs))
+    bbox = rm.bbox_of([(f.data.shape, f.offset) for f in fields])
     neg = bbox[1] < 0 or bbox[3] < 0
     ctx.check(tuple(int(x) for x in result) == bbox, 'boundary=bbox',
               'boundary|negative-only' if neg else 'boundary|value',
